@@ -798,6 +798,11 @@ func (f *frame) runFrom(b *ssa.BasicBlock) Value {
 		if inRepo && !m.st.blocks[b] {
 			m.st.blocks[b] = true
 		}
+		if tb := m.H.terminationBound(fn); tb > 0 && f.visits[b] > tb {
+			// the harness states that every loop of this function ends within tb iterations for its bounded input
+			// (//verif:terminates): going beyond is reported as a hang, not as an exceeded unwinding bound
+			panic(pathEnd{fmt.Sprintf("HANG: more than %d iterations of a loop in %s (block %d)", tb, fn, b.Index)})
+		}
 		if f.visits[b] > loopBound {
 			panic(engineErr(fmt.Sprintf("UNWINDING: loop bound %d exceeded in %s block %d", loopBound, fn, b.Index)))
 		}
